@@ -41,6 +41,12 @@ def main(argv=None):
     try:
         mod.run(rep)
     except HarnessError as e:
+        if rep.violations and str(e).startswith("vacuity guard failed"):
+            # violations cut the exploration short (erroring designs are not counted as explored): they are the result, the guard is a note;
+            # a run whose violations are all listed findings still counts as vacuous
+            print(f"NOTE property={pid}: {e} (exploration cut short by the violations reported below)")
+            rc = finish(rep, time.time() - t0, ROOT)
+            return rc if rc == 1 else 2
         print(f"ERROR harness property={pid}: {e}")
         return 2
     except Exception:
